@@ -20,7 +20,8 @@ patch = os.path.join(seed, "patch.diff")
 demo = [f for f in os.listdir(seed) if f.endswith("_test.go")][0]
 pkgdir = meta.get("demo_package_dir", ".") or "."
 pkgdir = pkgdir.replace(wt, "").strip("/") or "."
-if pkgdir.startswith("tmp/"):
+pkgdir = pkgdir.split()[0].rstrip("/") if pkgdir.split() else "."
+if pkgdir.startswith("tmp/") or not os.path.isdir(os.path.join(d, pkgdir)):
     pkgdir = "."
 ran = []
 r = sh("git apply " + patch); assert r.returncode == 0, r.stderr
